@@ -128,11 +128,12 @@ theorem rel_landed {cfg : Cfg} {st' : St} {t1 : Track} {e : Ev} {obs : List Ob} 
     refine ⟨hp.stopped, ?_, ?_, ?_, lastP_update_nodup _ _ a2.nodup hp.lp_nodup, hp.rt_lt, ?_, ?_, ?_, by rw [a3]; omega, ?_⟩
     · intro rid' b' h
       rw [a1] at h; injection h with h1 h2; subst h1; subst h2
-      refine ⟨by rw [hpf], rfl, ⟨rfl, a2.nodup, ?_, ?_, ?_, Nat.le_refl 1⟩, by rw [a3]; simp; omega, ?_, by rw [a2.cur]; exact a2.nodup,
+      refine ⟨by rw [hpf], rfl, ⟨rfl, a2.nodup, ?_, ?_, ?_, ?_, ?_, Nat.le_refl 1⟩, by rw [a3]; simp; omega, ?_, by rw [a2.cur]; exact a2.nodup,
         by rw [a2.cur]; intro hc; exact a2.ne (List.map_eq_nil_iff.mp hc),
-        fun _ tp htp => by rw [a2.cur]; rw [a2.live] at htp; exact htp⟩
-      · rw [a2.live]; simp only [List.not_mem_nil, not_false_eq_true, decide_true]
-        exact (List.filter_eq_self.mpr (fun _ _ => rfl)).symm
+        fun tp htp => by rw [a2.cur]; rw [a2.live] at htp; exact htp⟩
+      · intro tp htp; rw [a2.live] at htp; exact htp
+      · rw [a2.live]; exact a2.nodup
+      · intro tp _ hc; cases hc
       · intro g hg
         apply List.mem_append_left
         exact List.mem_map_of_mem (f := fun p : Payload => (p.tp, p.sids)) hg
